@@ -14,6 +14,14 @@ package server
 // first conjunct): whenever loadedMu is free, every entry of the loaded map is a runner that has
 // not been torn down (model and server present) and is keyed by its own model path.
 //@ lockinv (Scheduler).loadedMu : this.loaded != nil && (forall k string :: has(this.loaded, k) ==> (this.loaded[k] != nil && this.loaded[k].model != nil && this.loaded[k].llama != nil && this.loaded[k].modelPath == k))
+// C15 (no request makes the server panic) / C01 (a runner that has been shut down is never handed out):
+// a runner is either complete or torn down - model, server and Options are set together (load) and
+// cleared together (unload). Every function that finds a runner decides "torn down?" by looking at
+// ONE of them (needsReload: Options, useLoadedRunner / updateFreeSpace: llama) and then dereferences
+// the others (needsReload: runner.model.AdapterPaths, runner.llama.Ping), so whenever refMu is free
+// the three must agree. Proved at every release of refMu, assumed at every acquisition.
+// (added after seeded change C15-seed4, in which unload left Options behind)
+//@ lockinv (runnerRef).refMu : (this.Options == nil <==> this.llama == nil) && (this.model == nil <==> this.llama == nil)
 
 // llm.LlamaServer is external; its methods do not touch scheduler state.
 //@ extern func llm.(LlamaServer).Close
@@ -57,6 +65,9 @@ package server
 //@   ghost-at call Close : ghost_closed := ghost_closed + 1
 //@   assert-at return : ghost_closed == ghost_had
 //@   ensures runner.expireTimer == nil && runner.model == nil
+// C15: ... and nothing else of the torn-down runner is left either: Options (the field needsReload
+// tests before it dereferences model and llama) and the GPU list are cleared with the rest.
+//@   ensures runner.Options == nil && len(runner.gpus) == 0
 
 // C01: a runner that has been shut down (llama == nil after unload) is never handed to a
 // request; the reference is taken before the runner is sent.
@@ -81,6 +92,7 @@ package server
 //@   assert-at return : (result && pending.sessionDuration != nil) ==> runner.sessionDuration == pending.sessionDuration.Duration
 
 //@ func (*Scheduler).load
+//@   requires !heldany(runnerRef.refMu)     -- lock order (verif_contracts_lockorder.go): called with no runner lock held
 //@   ghost-at entry : ghost_replies := 0
 //@   ghost-at send errCh : ghost_replies := ghost_replies + 1
 //@   ghost-at call load$1 : ghost_replies := ghost_replies + 1     -- handing over to the goroutine that sends the one reply
@@ -100,10 +112,12 @@ package server
 //@   assert-at call load$1 : runner.sessionDuration == ite(req.sessionDuration != nil, req.sessionDuration.Duration, ghost_ka) && runner.expireTimer == nil
 // C02: an error reply carries an error.
 //@   assert-at send errCh : sent != nil
-//@   assume-at call newServerFn : req.model != nil      -- Go semantics: req.model.ModelPath is evaluated for this call; with a nil req.model execution would have stopped there
+//@   assume-at call newServerFn : req != nil && req.model != nil      -- Go semantics: req.model.ModelPath is evaluated for this call; with a nil req or a nil req.model execution would have stopped there (req != nil is what makes Options: &req.opts a non-nil pointer)
 
 //@ func (*Scheduler).load$1
 //@   requires held(runner.refMu) && runner.llama != nil && runner.refCount == 1
+// C15: the runner the goroutine inherits is complete (lock invariant of refMu, which it releases)
+//@   requires runner.model != nil && runner.Options != nil
 //@   ghost-at entry : ghost_replies := 0
 //@   ghost-at send errCh : ghost_replies := ghost_replies + 1
 //@   ghost-at send successCh : ghost_replies := ghost_replies + 1
@@ -132,6 +146,7 @@ package server
 // searched per model path) covers every live runner: an entry is deleted only after the
 // runner has been shut down (unload: llama == nil), inside the same critical section.
 //@ func (*Scheduler).processCompleted
+//@   requires !heldany(runnerRef.refMu)     -- lock order (verif_contracts_lockorder.go): called with no runner lock held
 //@   assert-at call delete #1 : runner.llama == nil
 //@   assert-at call delete #1 : held(s.loadedMu)
 // C02 (drain: every runner that was started is shut down once nobody uses it): an expiry event is
@@ -161,6 +176,7 @@ package server
 //@   assert-at send unloadedCh : ghost_unl == 1
 //@   ghost-at send unloadedCh : ghost_unl := ghost_unl - 1
 //@   loop 1 invariant ghost_unl == 0
+//@   loop 1 invariant !heldany(runnerRef.refMu)
 // the runner that is unloaded is the expired one, and the entry removed is the one it is keyed by
 //@   assert-at call unload : arg0 == runner && held(runner.refMu)
 //@   assert-at call delete #1 : arg1 == runner.modelPath
@@ -173,7 +189,8 @@ package server
 // C15 (the list of running models never reports a runner that has been torn down) / C02 (nothing is
 // reported as loaded): when loadedMu is released after the shutdown, the runner that was shut down is
 // no longer in the loaded map.
-//@   assert-at call sync.(*Mutex).Unlock #4 : runner.llama == nil && (!has(s.loaded, runner.modelPath) || s.loaded[runner.modelPath] != runner)
+// (stated for every release after the shutdown - ghost_unl == 1 between unload and the unloaded event - instead of a numbered Unlock site)
+//@   assert-at call sync.(*Mutex).Unlock : ghost_unl == 1 ==> runner.llama == nil && (!has(s.loaded, runner.modelPath) || s.loaded[runner.modelPath] != runner)
 
 // C02: the caller of GetRunner is never blocked: the queue send sits in a select with
 // default, and the busy error goes to a fresh channel of capacity 1.
@@ -187,10 +204,15 @@ package server
 //@   assert-at send errCh : sent == ErrMaxQueue
 //@   assert-at send pendingReqCh : sent.ctx == c && sent.model == model && sent.sessionDuration == sessionDuration && sent.successCh != nil && sent.errCh != nil
 //@   assert-at return : ghost_busy <= 1 && result.0 == req.successCh && result.1 == req.errCh
+// C11 (processPending records the request's own context once, "origNumCtx == 0" meaning "not yet
+// recorded"): a new request enters the queue with nothing recorded and with a context that is not 0,
+// so the value recorded on its first scheduling attempt can never be mistaken for "not recorded".
+//@   assert-at send pendingReqCh : sent.origNumCtx == 0 && sent.opts.NumCtx >= 4
 
 // C11: a new runner is started only when no runner exists for that model (read under
 // loadedMu in the same iteration; processPending is the only inserter).
 //@ func (*Scheduler).processPending
+//@   requires !heldany(runnerRef.refMu)     -- lock order (verif_contracts_lockorder.go): called with no runner lock held
 //@   assert-at call loadFn : runner == nil
 // C02 (every request gets its reply provided the requests ahead of it complete): before the
 // pending loop parks on unloadedCh, the runner chosen for eviction is certain to produce an
@@ -216,6 +238,9 @@ package server
 //@   loop 1 invariant ghost_owed == 0
 //@   loop 2 invariant ghost_owed == 1
 //@   loop 3 invariant ghost_owed == 1
+//@   loop 1 invariant !heldany(runnerRef.refMu)
+//@   loop 2 invariant !heldany(runnerRef.refMu)
+//@   loop 3 invariant !heldany(runnerRef.refMu)
 // C02: the finished event of a reused runner goes to the scheduler's own finished queue.
 //@   assert-at call useLoadedRunner : arg0 == pending && arg1 == runner && arg2 == s.finishedReqCh
 // C11 (limit, one per model): the decision is taken on a snapshot read under loadedMu in THIS
@@ -231,6 +256,29 @@ package server
 //@   assert-at call sync.(*Mutex).Lock #2 : runner != nil ==> runnerToExpire == runner
 // C01 (eviction enqueues an expiry only for an idle victim, under its refMu)
 //@   assert-at send expiredCh : sent == runnerToExpire && sent.refCount == 0 && held(sent.refMu)
+// C11 ("a request ... is served by a runner started with ITS options"; a compatible request reuses
+// the runner): every context the placement tries is origNumCtx * p (pickBestFullFitByLibrary, and the
+// CPU path below), and needsReload divides the loaded context by the parallelism again - so
+// origNumCtx has to be THE REQUEST'S context, whatever the number of scheduling attempts: it is
+// recorded once, from the context the request arrived with, and a request that comes back from the
+// queue (requeue goroutine) keeps the value recorded the first time, even though its opts.NumCtx has
+// been scaled by an earlier attempt in the meantime. ghost_o0 / ghost_n0 = origNumCtx / opts.NumCtx
+// of the request as it is taken off the queue (schedAttempts++ is the first thing done with it).
+// (added after seeded change C11-seed4, which re-recorded it on every attempt)
+//@   ghost-at store schedAttempts : ghost_o0 := pending.origNumCtx
+//@   ghost-at store schedAttempts : ghost_n0 := pending.opts.NumCtx
+//@   assert-at store origNumCtx : ghost_o0 == 0 && stored == ghost_n0
+//@   assert-at call Err #1 : pending.origNumCtx == ite(ghost_o0 != 0, ghost_o0, ghost_n0) && pending.opts.NumCtx == ghost_n0
+// the CPU path scales the request's context by the parallelism it loads with (site names match by
+// suffix: #1 is the store to origNumCtx above, #2 the store to opts.NumCtx)
+//@   assert-at store NumCtx #2 : stored == wrapint(pending.origNumCtx * numParallel)
+// ... so that the runner is started (loadFn) with the request's context scaled by the parallelism
+// it is started with: on the CPU path for the first model (sched.go:217), when the model fits next
+// to the loaded ones (:255, by the postcondition of pickBestFullFitByLibrary), and for the first
+// model when a full fit was found (:237). (Call ordinals follow the SSA block order.)
+//@   assert-at call loadFn #2 : pending.opts.NumCtx == wrapint(pending.origNumCtx * arg3)
+//@   assert-at call loadFn #3 : pending.opts.NumCtx == wrapint(pending.origNumCtx * arg3)
+//@   assert-at call loadFn #4 : g != nil ==> pending.opts.NumCtx == wrapint(pending.origNumCtx * arg3)
 
 // C02: exactly one reply on this path too.
 //@ func (*Scheduler).processCompleted$1
@@ -260,13 +308,26 @@ package server
 //@   ghost-at send finishedReqCh : ghost_f := ghost_f + 1
 //@   assert-at send finishedReqCh : sent == req
 //@   assert-at return : ghost_f == 1
+// C01 (the reference lives as long as the request): the finished event, which gives the reference
+// back, is posted only after the Done channel of THE REQUEST'S OWN context has been asked for (the
+// receive on it follows immediately) - not some other context's, and not unconditionally.
+//@   ghost-at entry : ghost_waited := 0
+//@   assert-at call Done : recv == req.ctx
+//@   ghost-at after call Done : ghost_waited := 1
+//@   assert-at send finishedReqCh : ghost_waited == 1
 //@ func (*LlmRequest).useLoadedRunner$1
 //@   ghost-at entry : ghost_f := 0
 //@   ghost-at send : ghost_f := ghost_f + 1      -- (the channel is a captured parameter, not a field: any send)
 //@   assert-at send : sent == pending
 //@   assert-at return : ghost_f == 1
+// C01: as in load$1$1 - the reference is given back only once the request's own context is done.
+//@   ghost-at entry : ghost_waited := 0
+//@   assert-at call Done : recv == pending.ctx
+//@   ghost-at after call Done : ghost_waited := 1
+//@   assert-at send : ghost_waited == 1
 
 //@ func (*Scheduler).expireRunner
+//@   requires !heldany(runnerRef.refMu)     -- lock order (verif_contracts_lockorder.go): called with no runner lock held
 //@   assert-at send expiredCh : sent.refCount == 0 && held(sent.refMu)
 // C01/C02 (mechanism: explicit unload only enqueues an expiry when refCount<=0, otherwise zeroes the
 // keep-alive and waits for the finish event): when refMu is released the keep-alive is cancelled
@@ -279,6 +340,7 @@ package server
 //@   assert-at call sync.(*Mutex).Lock #2 : runner == s.loaded[model.ModelPath]
 
 //@ func (*Scheduler).findRunnerToUnload
+//@   requires !heldany(runnerRef.refMu)     -- lock order (verif_contracts_lockorder.go): called with no runner lock held
 // C11 (making room evicts an idle runner when one exists; victims ordered by keep-alive then name):
 // the candidates are sorted before the choice; a runner returned from the idle scan was read as
 // idle (refCount == 0 under its refMu); the fallback (first of the sorted list) is taken only after
@@ -292,12 +354,14 @@ package server
 //@   assert-at return #2 : rc == 0 && result == runner && ghost_sorted == 1
 //@   assert-at return #3 : ghost_n == len(runnerList) && ghost_sorted == 1 && len(runnerList) > 0 && result == runnerList[0]
 //@ func (*Scheduler).unloadAllRunners
+//@   requires !heldany(runnerRef.refMu)     -- lock order (verif_contracts_lockorder.go): called with no runner lock held
 // C11 (placement: a new runner is started only where it fits in the memory the loaded models
 // leave free): the memory left free is computed from EVERY loaded runner. r.ghost_acct records
 // that r's per-GPU prediction was asked for and added; after the loop every loaded runner
 // that has a server (llama != nil) has been accounted for, unless there are no GPUs.
 // (added after seeded change C11-seed2, which skipped runners whose lock was busy)
 //@ func (*Scheduler).updateFreeSpace
+//@   requires !heldany(runnerRef.refMu)     -- lock order (verif_contracts_lockorder.go): called with no runner lock held
 //@   ghost-at after call EstimatedVRAMByGPU : r.ghost_acct := 1
 //@   loop 1 invariant forall k string :: visited(k) ==> (s.loaded[k] == nil || s.loaded[k].llama == nil || len(allGpus) == 0 || s.loaded[k].ghost_acct == 1)
 //@   loop 1 invariant forall k string :: has(s.loaded, k) ==> rangehad(k)
@@ -308,6 +372,7 @@ package server
 // ever LOWERED by the prediction (to total - predicted, or 0 when the prediction exceeds the total).
 //@   assert-at store FreeMemory : stored <= allGpus[i].FreeMemory && (stored == 0 || stored == allGpus[i].TotalMemory - p)
 //@ func (*Scheduler).filterGPUsWithoutLoadingModels
+//@   requires !heldany(runnerRef.refMu)     -- lock order (verif_contracts_lockorder.go): called with no runner lock held
 // C11 (avoid GPUs with loads in flight): a GPU is dropped from the result only because a runner that
 // is still loading was placed on it.
 //@   assert-at call append #2 : runner.loading && ret[i].ID == busyGPU.ID
@@ -329,6 +394,12 @@ package server
 //@   assert-at return : !result ==> (ghost_eq1 == 1 && ghost_eq2 == 1 && ghost_eq3 == 1 && ghost_ping == 1)
 //@   assert-at return : result ==> (runner.Options == nil || ghost_eq1 == 0 || ghost_eq2 == 0 || ghost_eq3 == 0 || ghost_ping == 0)
 //@   assert-at call Ping : recv == runner.llama && held(runner.refMu)
+// C15 (no request makes the server panic - needsReload runs in the scheduler's own goroutine, outside
+// gin's Recovery): the model and the server of the runner are dereferenced only when they are there
+// (a runner found in the loaded map may have been torn down before refMu was obtained).
+//@   assert-at call reflect.DeepEqual #1 : runner.model != nil
+//@   assert-at call reflect.DeepEqual #2 : runner.model != nil
+//@   assert-at call Ping : runner.llama != nil
 //@   assert-at call reflect.DeepEqual #3 : optsExisting.NumCtx == runner.Options.Runner.NumCtx / runner.numParallel && optsNew.NumCtx == req.opts.Runner.NumCtx
 
 // C11 ("a request ... is served by a runner started with its options", and a compatible request
@@ -353,11 +424,23 @@ package server
 //@   assert-at return #2 : ok && len(result) == len(sgl)
 //@   assert-at call PredictServerFit #1 : len(arg0) == 1 && arg0[0].ID == g.ID
 //@   assert-at call PredictServerFit #2 : len(arg0) == len(sgl)
+// (5) the request's own context (origNumCtx, recorded once by processPending) is only read here, and
+// when a placement is reported the request is left with exactly that context scaled by the
+// parallelism reported back - these are the options the runner is then started with (load).
+// (added after seeded change C11-seed4)
+//@   ensures req.origNumCtx == old(req.origNumCtx)
+//@   assume-at after call sort.Sort : req.origNumCtx == old(req.origNumCtx)      -- library fact: sort.Sort over the fresh copy of the GPU list (discover.ByFreeMemory: Len/Less/Swap on GpuInfo elements) does not touch the request
+//@   loop 1 invariant req.origNumCtx == old(req.origNumCtx)
+//@   loop 2 invariant req.origNumCtx == old(req.origNumCtx)
+//@   loop 3 invariant req.origNumCtx == old(req.origNumCtx)
+//@   loop 4 invariant req.origNumCtx == old(req.origNumCtx)
+//@   ensures result != nil ==> req.opts.NumCtx == wrapint(req.origNumCtx * (*numParallel))
 
 // C15 (no request makes the server panic; the list of running models never reports a torn-down
 // runner): under loadedMu every entry of the loaded map is a runner that has not been torn down
 // (lock invariant above), so the dereferences of v.model in PsHandler cannot fail.
 //@ func (*Server).PsHandler
+//@   requires !heldany(runnerRef.refMu)     -- lock order (verif_contracts_lockorder.go): called with no runner lock held
 //@   requires s != nil && s.sched != nil       -- assumption (the handler is called by gin): Serve creates the scheduler before the routes are served
 //@   opt safe+ nil
 
